@@ -39,6 +39,12 @@ async def expect_async(expecter, timeout=None):
         return await asyncio.wait_for(pattern_waiter.fut, timeout)
     except asyncio.TimeoutError as exc:
         transport.pause_reading()
+        # Data that arrived after the timer fired was appended to the buffers
+        # without being searched (the future was already done): look at it
+        # before giving up, as the blocking expect() does with what it reads.
+        idx = expecter.existing_data()
+        if idx is not None:
+            return idx
         return expecter.timeout(exc)
 
 
